@@ -24,16 +24,22 @@ SPEC = Spec(
          "random; GC effect independent; time steps at both min intervals -1/0/+1; GC durations 0..1 s); observed: usageChecker limit/spike, "
          "MustRefuse, GC calls, lastGCDone. non-trivial = a GC ran or the mode changed at least twice. thorough adds every abstract history "
          "of length <=4 over region{below,soft,hard} x gc-helps x dt{short,between,long}. refcount: start/shutdown/tick sequences (1-16 ops, "
-         "any number of sharers) on one real MemoryLimiter under synctest; after each op 1.5 check intervals pass and we observe whether "
-         "memory was read; corpus: start,shutdown,start. processor: the four processors created by the real factory from one config share "
+         "any number of sharers) on one real MemoryLimiter under synctest; after each op 1.5 check intervals pass with a scripted reading "
+         "and we observe whether memory was read and MustRefuse afterwards (the ticker-driven loop, model Sys.step); panics of "
+         "Start/Shutdown are recovered inside the bubble and reported with the case as replay; corpus: start,shutdown,start; two and "
+         "three sharers leaving one by one. processor: the four processors created by the real factory from one config share "
          "one limiter; readings scripted via memorylimiter.ReadMemStatsFn, CheckMemLimits called directly, 4-15 consumes against a recording "
-         "downstream returning nil / error / permanent error; non-trivial = both refused and accepted consumes. extension: MustRefuse after "
+         "downstream returning nil / error / permanent error, 1-4 items per payload; observed besides the result: the deltas of the "
+         "processor's accepted/refused counters and processorhelper's incoming/outgoing items (componenttest.Telemetry), compared with "
+         "consumeFull; the clauses of each call are judged by the Lean oracle checkConsume (tr oc lines); non-trivial = both refused and "
+         "accepted consumes. extension: MustRefuse after "
          "each of 8 scripted checks. distinct = sha1 of op lines.",
     trusted_base=[
         "Lean 4.33.0 kernel; axioms per theorem listed under axioms_per_theorem (subset of propext, Classical.choice, Quot.sound)",
         "hand-written model of getMemUsageChecker / newFixed- / newPercentageMemUsageChecker / aboveSoftLimit / aboveHardLimit / "
-        "CheckMemLimits / Start / Shutdown / Config.Validate / process* under processorhelper, uint64 arithmetic written out with its "
-        "wrap-around on Nat; tied by exact differential on every run",
+        "CheckMemLimits / Start / Shutdown / the ticker loop / Config.Validate / process* + obsreport under processorhelper.New* "
+        "(xprocessorhelper.NewProfiles: no obsreport) / the extension, uint64 arithmetic written out with its wrap-around on Nat; tied by "
+        "exact differential on every run",
         "runtime.ReadMemStats and runtime.GC themselves are scripted (the property is about the decision taken on their results)",
         "Go runtime: time.Ticker, goroutines, testing/synctest virtual clock",
     ],
